@@ -145,9 +145,9 @@ fault('cursor-assigned-not-advanced', ['C08'], ('decode.py',
 fault('key-length-read-unchecked', ['C08'], ('decode.py',
       "            key_length = common.Struct.byte.unpack_from(value, offset)[0]\n            offset += 1",
       "            key_length = value[offset] if offset < len(value) else 0\n            offset += 1"))
-fault('signed-container-prefix', ['C08'], ('decode.py',
-      "        length = common.Struct.integer.unpack(value[0:4])[0]\n        offset = 4\n        data = {}",
-      "        length = common.Struct.uint.unpack(value[0:4])[0]\n        offset = 4\n        data = {}"))
+fault('revert-F12-reported-count', ['C08'], ('decode.py',
+      "            data[key] = result\n        return offset, data",
+      "            data[key] = result\n        return field_table_end, data"))
 fault('revert-F4-array-guard', ['C08'], ('decode.py',
       "        if field_array_end > len(value):\n            raise ValueError('Field array length exceeds available data')\n", ""))
 fault('revert-F5-flags-offset', ['C08'], ('header.py',
